@@ -1,6 +1,6 @@
 (* C18 — sampling thins traces without distorting them.  The draw random.randrange(rate) is an input carried by
    each call event (the RNG is not modelled; uniformity is assumed, see the evidence). *)
-From MT Require Import Types Tracer TracerFacts.
+From MT Require Import Types Tracer TracerFacts TracerOrder TracerSampled.
 
 (* rate unset (None) or 0: no sampling at all — identical to the unsampled run, state and log *)
 Theorem rate_unset_traces_all :
@@ -32,6 +32,55 @@ Theorem sampled_faithful :
        = (first_taken rate (proj f H) && pending_frame (proj f H)).
 Proof. exact sampled_history. Qed.
 Print Assumptions sampled_faithful.
+
+(* ================= global statements under sampling (Proofs/TracerSampled.v) =================
+   kf_free rate H: no frame of H is in the finding class kf_resume_sampled_after_skip. *)
+
+(* the sampled log IS the unsampled log restricted to the calls whose first call event was sampled: same traces,
+   same order *)
+Theorem sampled_log_is_subsequence :
+  forall rate H, sampling rate = true -> wf_history H = true -> kf_free rate H = true ->
+    rev (logged (run rate H)) = filter (fun p => first_taken rate (proj (fst p) H)) (completion_events H).
+Proof. exact TracerSampled.sampled_log_is_subsequence. Qed.
+Print Assumptions sampled_log_is_subsequence.
+
+Theorem sampled_log_sublist_of_unsampled :
+  forall rate H, sampling rate = true -> wf_history H = true -> kf_free rate H = true ->
+    sublist (rev (logged (run rate H))) (rev (logged (run None H))).
+Proof. exact TracerSampled.sampled_log_sublist_of_unsampled. Qed.
+Print Assumptions sampled_log_sublist_of_unsampled.
+
+(* every logged trace is exactly the unsampled description of a real call, and a call is logged iff its first draw is 0 *)
+Theorem sampled_log_entries :
+  forall rate H f t, sampling rate = true -> wf_history H = true -> kf_free rate H = true ->
+    (In (f, t) (logged (run rate H)) <-> expected_frame (proj f H) = [t] /\ first_draw_zero (proj f H) = true).
+Proof. exact TracerSampled.sampled_log_entries. Qed.
+Print Assumptions sampled_log_entries.
+
+(* no residue: the tracer's table holds exactly the in-flight calls whose first call event was sampled *)
+Theorem sampled_table :
+  forall rate H f, sampling rate = true -> wf_history H = true -> kf_free rate H = true ->
+    lookup f (live (run rate H)) = if first_taken rate (proj f H) then partial_frame (proj f H) else None.
+Proof. exact TracerSampled.sampled_table. Qed.
+Print Assumptions sampled_table.
+
+Theorem sampled_table_empty :
+  forall rate H, sampling rate = true -> wf_history H = true -> kf_free rate H = true ->
+    (forall f, In f (frames_of H) -> first_taken rate (proj f H) = true -> pending_frame (proj f H) = false) ->
+    live (run rate H) = [].
+Proof. exact TracerSampled.sampled_table_empty. Qed.
+Print Assumptions sampled_table_empty.
+
+(* the deterministic half of "about one call in N": the number of logged calls is the number of finished traceable
+   calls whose first draw was 0 (with uniform draws from randrange(N), one in N) *)
+Theorem sampled_count :
+  forall rate H, sampling rate = true -> wf_history H = true -> kf_free rate H = true ->
+    List.length (logged (run rate H)) = List.length (sampled_frames H).
+Proof. exact TracerSampled.sampled_count. Qed.
+Print Assumptions sampled_count.
+
+Example ex_c18_global_nonvacuous : True.
+Proof. pose proof TracerSampled.ex_sampled_nonvacuous as _. pose proof TracerSampled.ex_sampled_needs_kf_free as _. exact I. Qed.
 
 Example ex_c18_nonvacuous :
   let g := Code 1 false true (Some 7%N) KGen in
